@@ -613,7 +613,7 @@ func (c *Ctx) c11Advertised(g *Gen, corr *[]corrCase) {
 // (2) soundness over all identifiers x attribute classes
 func (c *Ctx) c11Sound(g *Gen, corr *[]corrCase) {
 	s := c.suite("decode-soundness", "oracle",
-		"all 65536 transform identifiers x attribute classes {absent; TV type 14 with value in {0,1,64,127,128,129,191,192,193,255,256,257,512,65535} and random; TV type 14+128k (k=1..255: all collide with 14 under a 7-bit mask; quick tier: k in {1,2,127,255} outside ids 0..300), TV types 0,13,15 carrying 128/192/256; TLV type 14 with the 2-octet big-endian value 128/192/256} x the 7 decode functions (encr, encr-child, prf, integ, integ-child, dh, esn), on the struct directly (path:direct) and after SA Marshal/Unmarshal of that transform (path:wire; quick tier: ids 0..300 with all classes + 2000 random ids with the reduced classes; thorough: all ids, all classes).  Outcome must equal the reference: unsupported, or the algorithm with that identifier and, for encryption, key length*8 = the TV value of attribute type exactly 14.  non-trivial = identifier registered in some registry (0,1,2,5,12,14) or outcome not none; the remaining cases are counted, a 1/9973 sample of them is listed; distinct by (path, kind, transform)")
+		"all 65536 transform identifiers x attribute classes {absent; for identifiers 11,12,13 additionally every one of the 65536 TV key-length values; TV type 14 with value in {0,1,64,127,128,129,191,192,193,255,256,257,512,65535} and random; TV type 14+128k (k=1..255: all collide with 14 under a 7-bit mask; quick tier: k in {1,2,127,255} outside ids 0..300), TV types 0,13,15 carrying 128/192/256; TLV type 14 with the 2-octet big-endian value 128/192/256} x the 7 decode functions (encr, encr-child, prf, integ, integ-child, dh, esn), on the struct directly (path:direct) and after SA Marshal/Unmarshal of that transform (path:wire; quick tier: ids 0..300 with all classes + 2000 random ids with the reduced classes; thorough: all ids, all classes).  Outcome must equal the reference: unsupported, or the algorithm with that identifier and, for encryption, key length*8 = the TV value of attribute type exactly 14.  non-trivial = identifier registered in some registry (0,1,2,5,12,14) or outcome not none; the remaining cases are counted, a 1/9973 sample of them is listed; distinct by (path, kind, transform)")
 	st := &c11Stats{s: s}
 	fullCl, redCl := c11Classes(true), c11Classes(false)
 	wireIDs := map[int]bool{}
@@ -671,6 +671,21 @@ func (c *Ctx) c11Sound(g *Gen, corr *[]corrCase) {
 		}
 		if len(c.rep.Violations) >= c.maxV {
 			break
+		}
+	}
+	// every one of the 65536 key-length values (TV, attribute type 14) for the registered encryption identifier
+	// and its neighbours, through both encryption decode functions
+	for _, id := range []uint16{11, 12, 13} {
+		for v := 0; v < 65536; v++ {
+			t := &message.Transform{TransformType: 1, TransformID: id, AttributePresent: true, AttributeFormat: 1, AttributeType: 14, AttributeValue: uint16(v)}
+			for _, ki := range kindsOf[1] {
+				idx++
+				got := c.c11Check(st, ki, t, t, 0, 1, idx)
+				if corr != nil && id == 12 && (got.ok || v%2048 == 128 || v%4099 == 0) {
+					kind := c11Kinds[ki].name
+					*corr = append(*corr, corrCase{line: c11Line(kind, t), goRes: got.String(), nontr: got.ok, tags: []string{"op:dectr", "kind:" + kind, "class:keylen-tv"}})
+				}
+			}
 		}
 	}
 	st.flush()
